@@ -290,6 +290,7 @@ class Generator:
             nonlocal sig, body
             sig = fn(sig, *a)
             body = fn(body, *a)
+        both(R.r1_attrs, log)
         both(R.r2_panics, log)
         both(R.r3_const_uses, self.x.const_names, self_is_bnum, log)
         both(R.r6_int_ident, log)
